@@ -237,7 +237,9 @@ def h_complete(ctx, skeleton, n=2, args=None, only=None):
     check_graph(ctx, {k: o for k, o in objs.items()}, "after building", chains=False)
 
 
-def h_consistent(ctx, skeleton, script=None, sim=None, n=2, args=None):
+def h_consistent(ctx, skeleton, script=None, sim=None, n=2, args=None, fresh_graph=False):
+    """fresh_graph: after each edit the recorded dependency graph (children/ancestors by object and attribute) must be the
+    one of a freshly built system — completeness after a history reduces to completeness of a built system (h_complete)"""
     spec = M.SKELETONS[skeleton](n, **(args or {}))
     sym = traffic_syms(spec)
     if script:
@@ -252,6 +254,9 @@ def h_consistent(ctx, skeleton, script=None, sim=None, n=2, args=None):
         e = resolve(ctx, env, env, spec, je, i)
         spec, env = E.apply(objs, spec, env, e)
         check_graph(ctx, objs, f"after edit {i + 1} ({je['k']})")
+        if fresh_graph:
+            from harness.c01 import compare_live_fresh
+            compare_live_fresh(ctx, objs, spec, env, f"after edit {i + 1} ({je['k']})", graph=True)
     if sim:
         from datetime import timedelta
         changes, prims = changes_of(ctx, env, spec, objs, sim["script"])
@@ -395,7 +400,10 @@ def plan(tier, seed):
     p.append(("complete", dict(skeleton="TX", only=["srv", "st", "job", "job3", "net", "up", "up2"]), dict(max_paths=300, max_seconds=220)))
     for sc in ([num("job", "data_transferred")], [num("job", "request_duration")], [num("srv", "ram")],
                [num("step", "user_time_spent")], [num("st", "data_storage_duration")]):
-        p.append(("consistent", dict(skeleton="T1", script=sc)))
+        p.append(("consistent", dict(skeleton="T1", script=sc, fresh_graph=True)))
+    # two edits of the same input in a row (a node kept from the first edit must not keep a superseded parent)
+    for o, q in (("job", "request_duration"), ("step", "user_time_spent"), ("st", "data_storage_duration"), ("job", "data_stored")):
+        p.append(("consistent", dict(skeleton="T1", script=[num(o, q), num(o, q)], fresh_graph=True)))
     for sc in ([L("job", "server", "srv_alt")], [L("up", "network", "net_alt")], [L("up", "usage_journey", "uj_alt")],
                [dict(k="list_op", obj="uj", attr="uj_steps", op="append", args=["step3"])],
                [dict(k="list_assign", obj="up", attr="devices", names=["dev", "dev_alt"])]):
